@@ -1238,7 +1238,10 @@ def audit(out: OutputBuffer, aconf: AuditConf, sshv: Optional[int] = None, print
             if payload_txt == 'Protocol major versions differ.':
                 if sshv == 2 and aconf.ssh1:
                     ret = audit(out, aconf, 1)
-                    out.write()
+
+                    # If we're running against multiple targets, the worker thread returns the buffered report to the main thread, which prints it between the delimiters.
+                    if len(aconf.target_list) == 0:
+                        out.write()
                     return ret
             err = '[exception] error reading packet ({})'.format(payload_txt)
         else:
